@@ -103,7 +103,7 @@ theorem C13_older_files_flushed {s : St} {db : DB} (hd : DInv s db) :
 
 /-- the invariant is established by `Open` on a directory that does not exist yet: the handle is
     open, nothing is unflushed, the counter is 0 -/
-theorem C13_fresh (dir : String) (cfg : Cfg) (h : cfg.fileSize > 0) :
+theorem C13_fresh (dir : String) (cfg : Cfg) (h : cfg.Valid) :
     ∃ db, (openDB St.init dir cfg).1.db = some db ∧ DInv (openDB St.init dir cfg).1 db ∧
       AllSynced (openDB St.init dir cfg).1 db ∧ TInv (openDB St.init dir cfg).1 db 0 ∧
       db.cfg = cfg ∧ db.bytesWrite = 0 := by
@@ -113,7 +113,7 @@ theorem C13_fresh (dir : String) (cfg : Cfg) (h : cfg.fileSize > 0) :
 /-- … and by every clean restart (`Close` then `Open`, any new configuration) of a database that
     satisfies the engine invariant and the durability invariant: afterwards everything is flushed -/
 theorem C13_restart (s : St) (db : DB) (g : GDir) (cfg' : Cfg) (hdb : s.db = some db) (hinv : Inv s db g)
-    (hd : DInv s db) (hnomerge : s.world.get (mergeDirName db.dir) = none) (hcfg : cfg'.fileSize > 0) :
+    (hd : DInv s db) (hnomerge : s.world.get (mergeDirName db.dir) = none) (hcfg : cfg'.Valid) :
     ∃ db', (C02.restart s db.dir cfg').db = some db' ∧ DInv (C02.restart s db.dir cfg') db' ∧
       AllSynced (C02.restart s db.dir cfg') db' ∧ TInv (C02.restart s db.dir cfg') db' 0 ∧
       db'.cfg = cfg' ∧ db'.bytesWrite = 0 := by
@@ -382,7 +382,7 @@ theorem C13_threshold_run (ops : List C01.Op) : ∀ {s : St} {db : DB} {u : Nat}
 /-- the Threshold bound on the fresh database, at EVERY return: for every prefix of the operation
     list, fewer than `BytesPerSync + 7 · (calls so far)` bytes of the active file are unflushed (or
     none), and all other files are completely flushed -/
-theorem C13_threshold_fresh (dir : String) (cfg : Cfg) (h : cfg.fileSize > 0) (hc : cfg.sync = 2)
+theorem C13_threshold_fresh (dir : String) (cfg : Cfg) (h : cfg.Valid) (hc : cfg.sync = 2)
     (ops : List C01.Op) (n : Nat) :
     ∃ db', (C01.run (openDB St.init dir cfg).1 (ops.take n)).1.db = some db' ∧
       DInv (C01.run (openDB St.init dir cfg).1 (ops.take n)).1 db' ∧
@@ -522,7 +522,7 @@ theorem C13_sync_close {s : St} {db : DB} (hs : s.db = some db) :
 
 /-- the hypotheses of `C13_always` are satisfiable (fresh database, any `fileSize`, so the `Put`
     may or may not rotate): after the first `Put` everything is flushed -/
-example (dir : String) (cfg : Cfg) (h : cfg.fileSize > 0) (hc : cfg.sync = 1) (k v : ByteArray) (hk : k.size ≠ 0) :
+example (dir : String) (cfg : Cfg) (h : cfg.Valid) (hc : cfg.sync = 1) (k v : ByteArray) (hk : k.size ≠ 0) :
     ∃ db', (put (openDB St.init dir cfg).1 k v).1.db = some db' ∧
       AllSynced (put (openDB St.init dir cfg).1 k v).1 db' ∧
       unsynced (activeFile (put (openDB St.init dir cfg).1 k v).1 db') = 0 := by
@@ -531,7 +531,7 @@ example (dir : String) (cfg : Cfg) (h : cfg.fileSize > 0) (hc : cfg.sync = 1) (k
   exact ⟨db', g1, g4, g6⟩
 
 /-- the hypotheses of `C13_threshold` are satisfiable with `u = 0` (fresh database) -/
-example (dir : String) (cfg : Cfg) (h : cfg.fileSize > 0) (hc : cfg.sync = 2) (k v : ByteArray) (hk : k.size ≠ 0) :
+example (dir : String) (cfg : Cfg) (h : cfg.Valid) (hc : cfg.sync = 2) (k v : ByteArray) (hk : k.size ≠ 0) :
     ∃ db', (put (openDB St.init dir cfg).1 k v).1.db = some db' ∧
       ((db'.bytesWrite = 0 ∧ AllSynced (put (openDB St.init dir cfg).1 k v).1 db') ∨ db'.bytesWrite < cfg.bps) ∧
       unsynced (activeFile (put (openDB St.init dir cfg).1 k v).1 db') ≤ db'.bytesWrite + 7 := by
@@ -542,7 +542,7 @@ example (dir : String) (cfg : Cfg) (h : cfg.fileSize > 0) (hc : cfg.sync = 2) (k
 
 /-- the hypotheses of `C13_sync_batch` are satisfiable: `NewBatch(Sync)` and one `Batch.Put` on the
     fresh database give an open, uncommitted Sync batch with a non-empty staging area -/
-example (dir : String) (cfg : Cfg) (h : cfg.fileSize > 0) (id : Nat) (k v : ByteArray) (hk : k.size ≠ 0) :
+example (dir : String) (cfg : Cfg) (h : cfg.Valid) (id : Nat) (k v : ByteArray) (hk : k.size ≠ 0) :
     ∃ db b, (bput (bnew (openDB St.init dir cfg).1 true id).1 k v).1.db = some db ∧ db.batch = some b ∧
       b.sync = true ∧ b.committed = false ∧ b.staged ≠ [] ∧
       DInv (bput (bnew (openDB St.init dir cfg).1 true id).1 k v).1 db := by
@@ -551,7 +551,7 @@ example (dir : String) (cfg : Cfg) (h : cfg.fileSize > 0) (id : Nat) (k v : Byte
   exact ⟨db', b', hS.sdb, hS.bat, hS.sync, hS.open_, hne hk, hS.dinv⟩
 
 /-- … and the whole session flushes everything -/
-example (dir : String) (cfg : Cfg) (h : cfg.fileSize > 0) (id : Nat) (k v : ByteArray) (hk : k.size ≠ 0) :
+example (dir : String) (cfg : Cfg) (h : cfg.Valid) (id : Nat) (k v : ByteArray) (hk : k.size ≠ 0) :
     ∃ db', (C05.runCommit (openDB St.init dir cfg).1 true id [.bput k v]).1.db = some db' ∧
       AllSynced (C05.runCommit (openDB St.init dir cfg).1 true id [.bput k v]).1 db' := by
   obtain ⟨db, h1, h2, _⟩ := C13_fresh dir cfg h
